@@ -263,6 +263,17 @@ func (x *X) hasCall(name, dir, recv, fn, suffix string) {
 
 func init() {
 	register("C17", func(x *X) error {
+		// Translated code (extract/golean.go): the BBC fragment header functions as Lean definitions
+		x.Raw("namespace Go")
+		gl := x.GoLean("pkg/cla/bbc")
+		for _, fn := range []string{"NewFragment", "nextSequenceNumber", "nextTransmissionId"} {
+			gl.Translate("", fn)
+		}
+		for _, m := range []string{"TransmissionID", "SequenceNumber", "StartBit", "EndBit", "FailBit", "ReportFailure"} {
+			gl.Translate("Fragment", m)
+		}
+		gl.Emit()
+		x.Raw("end Go")
 		const msgs = "pkg/cla/tcpclv4/internal/msgs"
 		const bbc = "pkg/cla/bbc"
 		const bp = "pkg/bpv7"
